@@ -519,6 +519,11 @@ def run(res, tier):
     _c06.grid_range(tbf.scan("core"), _sub)
     tbf.reexport(res, _sub, ("C06.6",), "C01.9.binned-in-the-grid", min_instances=2)
     facts = tbf.scan("core")
+    res.rule("C01.10 the OpenMP executor, the default one, applies per stage what the sequential reference applies: same wrapper applications, level interval, guards, mappers and the same walk over the groups (rule C03.a on TbfOpenmpAlgorithm) - a group skipped by the walk loses its in-leaf pairs whatever the schedule")
+    import c03 as _c03, stages as _stages
+    _sub3 = tbf.Result("C03")
+    _c03.same_submissions(facts, _stages.ExecutorSummary(facts, "TbfOpenmpAlgorithm"), _stages.ExecutorSummary(facts, "TbfAlgorithm"), _sub3)
+    tbf.reexport(res, _sub3, ("C03.a",), "C01.10.same-work-as-reference", min_instances=6)
     res.units.append("umbrella TU 'core': sequential and OpenMP executors (single tree and target/source), TbfGroupKernelInterface, both ordering classes, tbfalgorithmutils.hpp, tbfinteraction.hpp")
     res.assumptions.append("Decides five structural necessary conditions of exactly-once; which cells a list builder enumerates (the 3^Dim / 2^Dim arithmetic) and that the cursors are correct in the first place are value-level and not decided")
     res.rule("C01.1 up/down walk: M2M and L2L (P2M and L2P) of each executor have equal control skeletons (loop and branch conditions, which cursor each branch advances, where the operator is applied)")
